@@ -66,7 +66,7 @@ def pv(v):
         return 'PNone'
     if isinstance(v, (bool, np.bool_)):
         return f'(PBool {b(v)})'
-    if isinstance(v, (int, np.integer)):
+    if isinstance(v, (int, np.integer)) and not isinstance(v, np.timedelta64):   # np.timedelta64 subclasses np.integer
         return f'(PInt {z(v)})'
     if isinstance(v, str):
         return f'(PStr {s(v)})'
@@ -106,7 +106,7 @@ def val(v):
         return 'VNone'
     if isinstance(v, (bool, np.bool_)):
         return f'(VBool {b(v)})'
-    if isinstance(v, (int, np.integer)):
+    if isinstance(v, (int, np.integer)) and not isinstance(v, np.timedelta64):   # np.timedelta64 subclasses np.integer
         return f'(VInt {z(v)})'
     if isinstance(v, (float, np.floating)):
         f = float(v)
